@@ -89,7 +89,14 @@ def lock_types(prog):
 DETECTOR, MUTEX_OF_DETECTOR = 555, 777
 
 
-def slot_fold(prog, f, alloc_answer=70000):
+def null_variants(f):
+    """the partitions of a slot function's pointer parameters: all given, and each pointer parameter NULL in turn
+    (realloc(NULL, n), free(NULL), delete NULL take their own paths)"""
+    ptrs = [q["name"] for q in f.params if q["ct"].rstrip().endswith("*") and "char" not in q["ct"]]
+    return [()] + [(p_,) for p_ in ptrs]
+
+
+def slot_fold(prog, f, alloc_answer=70000, nulls=()):
     """Fold a function stored in an allocation slot against recording stubs of the detector and of SimpleMutex, with
     local objects modelled: constructors and (also on unwinding) destructors of the lock types are run, whichever
     classes and helpers the locking is spread over. Returns the chronological list of events:
@@ -106,7 +113,7 @@ def slot_fold(prog, f, alloc_answer=70000):
         hooks["MemoryLeakDetector::" + m] = (lambda *a_, m=m: alloc_answer if m in ("allocMemory", "reallocMemory") else 0)
     env = {}
     for i_, q in enumerate(f.params):
-        env[q["name"]] = 7000 + i_
+        env[q["name"]] = 0 if q["name"] in nulls else 7000 + i_
     ev = Evaluator(prog, f, env=env, calls=hooks)
     ev.pass_object = True
     ev.objects = True
@@ -235,6 +242,43 @@ def check(ctx, run):
 
     slots, saved, stored = slot_switch_rules(prog, run, "R1")
 
+    # the mode in force survives the lazy creation of the global detector (which saves, switches off and restores)
+    gd = prog.fn("MemoryLeakWarningPlugin::getGlobalDetector")
+    run.analysed(gd)
+    for mode in ("threadsafe", "default", "off"):
+        for depth in (0, 1):
+            env = {"globalDetector": 0, "globalReporter": 0, "save_counter": depth}
+            before = {}
+            for s_ in slots:
+                mn_ = stored[mode if depth == 0 else "off"].get(s_)
+                before[s_] = ("fn", prog.functions[mn_].qn) if mn_ in prog.functions else ("fn", str(mn_))
+            env.update(before)
+            outer = {}
+            for s_ in saved:
+                mn_ = stored[mode].get(s_[len("saved_"):])
+                outer[s_] = (("fn", prog.functions[mn_].qn) if mn_ in prog.functions else ("fn", str(mn_))) if depth else ("fn", "stale_" + s_)
+            env.update(outer)
+            ev = Evaluator(prog, gd, env=env)
+            try:
+                ev.run_blocks(gd.entry, max_steps=2000)
+                r = getattr(ev, "ret", None)
+            except Unknown as u:
+                raise AnalysisBroken("C10.R1: getGlobalDetector cannot be folded: %s" % u)
+            news = [a_[0] for nm_, a_, nd_ in ev.trace if nm_.startswith("new MemoryLeakDetector") and a_]
+            after = {s_: ev.env.get(s_) for s_ in slots}
+            why = ""
+            if len(news) != 1 or r != news[0] or ev.env.get("globalDetector") != news[0]:
+                why = "the detector is created %d times / the created one is not what is stored and returned (%s)" % (len(news), r)
+            elif after != before:
+                ch = sorted(k_ for k_ in slots if after[k_] != before[k_])
+                why = "the slots %s hold %s afterwards: the %s mode in force is lost when the detector is first created" % (ch[:3], [after[k_][1] if isinstance(after[k_], tuple) else after[k_] for k_ in ch[:3]], mode)
+            elif depth and {s_: ev.env.get(s_) for s_ in saved} != outer:
+                why = "the overloads saved by the enclosing save are overwritten"
+            elif ev.env.get("save_counter") != depth:
+                why = "save/restore are not balanced (counter %s -> %s)" % (depth, ev.env.get("save_counter"))
+            run.ob("R1", "getGlobalDetector folded on first use in %s mode%s: creates the detector once and leaves every slot as it was" % (mode, " inside an enclosing save/disable" if depth else ""), gd.site, not why,
+                   witness=why or {"slots": len(slots), "created": news}, what=why)
+
     # ---------------- R2 --------------------------------------------------
     locked_fns = []
     LT = lock_types(prog)
@@ -247,28 +291,36 @@ def check(ctx, run):
             continue
         run.analysed(ft)
         run.analysed(fd)
-        try:
-            et, rt_, endt, envt = slot_fold(prog, ft)
-            ed, rd_, endd, envd = slot_fold(prog, fd)
-            et0, _, endt0, _ = slot_fold(prog, ft, alloc_answer=0)
-            ed0, _, endd0, _ = slot_fold(prog, fd, alloc_answer=0)
-        except Unknown as u:
-            run.broke("C10.R2: the functions of slot %s cannot be folded: %s" % (s, u))
-            continue
-        locks = [e for e in et if e[0] == "lock" and e[1] == MUTEX_OF_DETECTOR]
-        unlocked = [e for e in et if e[0] in ("getter", "detector") and not e[-1]]
+        why, et, ed = "", [], []
         work = lambda ev_: [(e[0],) + tuple(e[1:-1]) for e in ev_ if e[0] in ("getter", "detector")]
-        why = ""
-        if not locks:
-            why = "the global detector's mutex is never locked in the function stored by the thread-safe switch"
-        elif unlocked:
-            why = "call(s) before the lock is taken or after it was released: %s" % [e[1] for e in unlocked]
-        elif len(locks) != 1:
-            why = "the lock is taken %d times" % len(locks)
-        elif work(et) != work(ed) or (endt, rt_) != (endd, rd_) or work(et0) != work(ed0) or endt0 != endd0:
-            why = "body differs from the unlocked sibling %s" % fd.qn
-        if locks:
-            locked_fns.append(ft)
+        for nulls in null_variants(ft):
+            try:
+                nd_ = tuple(fd.params[[q["name"] for q in ft.params].index(p_)]["name"] for p_ in nulls) if len(fd.params) == len(ft.params) else ()
+                et, rt_, endt, envt = slot_fold(prog, ft, nulls=nulls)
+                ed, rd_, endd, envd = slot_fold(prog, fd, nulls=nd_)
+                et0, _, endt0, _ = slot_fold(prog, ft, alloc_answer=0, nulls=nulls)
+                ed0, _, endd0, _ = slot_fold(prog, fd, alloc_answer=0, nulls=nd_)
+            except Unknown as u:
+                run.broke("C10.R2: the functions of slot %s cannot be folded: %s" % (s, u))
+                why = None
+                break
+            locks = [e for e in et if e[0] == "lock" and e[1] == MUTEX_OF_DETECTOR]
+            unlocked = [e for e in et if e[0] in ("getter", "detector") and not e[-1]]
+            tag = (" (with %s == NULL)" % nulls[0]) if nulls else ""
+            if not locks and work(et):
+                why = "the global detector's mutex is never locked in the function stored by the thread-safe switch" + tag
+            elif unlocked:
+                why = "call(s) before the lock is taken or after it was released%s: %s" % (tag, [e[1] for e in unlocked])
+            elif len(locks) > 1:
+                why = "the lock is taken %d times%s" % (len(locks), tag)
+            elif work(et) != work(ed) or (endt, rt_) != (endd, rd_) or work(et0) != work(ed0) or endt0 != endd0:
+                why = "body differs from the unlocked sibling %s%s" % (fd.qn, tag)
+            if locks and ft not in locked_fns:
+                locked_fns.append(ft)
+            if why:
+                break
+        if why is None:
+            continue
         run.ob("R2", "slot %s" % s, ft.site, not why, witness={"threadsafe": [list(map(str, e)) for e in et], "default": [list(map(str, e)) for e in ed]}, what=why)
 
     # any other function using the RAII type is also 'locked'
@@ -285,22 +337,24 @@ def check(ctx, run):
         ft = prog.functions.get(stored["threadsafe"].get(s_))
         if ft is None:
             continue
-        for answer in (70000, 0):
+        for answer, nulls in [(70000, ()), (0, ())] + [(70000, nv) for nv in null_variants(ft)[1:]]:
             try:
-                et, rt_, endt, envt = slot_fold(prog, ft, alloc_answer=answer)
+                et, rt_, endt, envt = slot_fold(prog, ft, alloc_answer=answer, nulls=nulls)
             except Unknown as u:
                 run.broke("C10.R3: the thread-safe function of slot %s cannot be folded: %s" % (s_, u))
                 continue
             lk = [e[1] for e in et if e[0] == "lock"]
             ul = [e[1] for e in et if e[0] == "unlock"]
             why = ""
-            if lk != [MUTEX_OF_DETECTOR]:
+            if nulls and not [e for e in et if e[0] in ("getter", "detector")] and not lk and not ul:
+                pass        # (a NULL argument handled without touching the detector needs no lock)
+            elif lk != [MUTEX_OF_DETECTOR]:
                 why = "locks %s; expected exactly the mutex of MemoryLeakWarningPlugin::getGlobalDetector() once" % (lk,)
             elif ul != [MUTEX_OF_DETECTOR]:
                 why = "leaves by %s with the mutex unlocked %d times (unlocks %s)" % (endt, len(ul), ul)
             elif [e[0] for e in et if e[0] in ("lock", "unlock")] != ["lock", "unlock"]:
                 why = "unlock precedes lock"
-            run.ob("R3", "slot %s (detector answers %s): locks the global detector's mutex once and releases it once by the time it %ss" % (s_, "a block" if answer else "NULL", endt), ft.site, not why,
+            run.ob("R3", "slot %s (detector answers %s%s): locks the global detector's mutex once and releases it once by the time it %ss" % (s_, "a block" if answer else "NULL", (", %s == NULL" % nulls[0]) if nulls else "", endt), ft.site, not why,
                    witness=[list(map(str, e)) for e in et if e[0] in ("lock", "unlock")], what=why)
     gm = prog.fn("MemoryLeakDetector::getMutex")
     run.analysed(gm)
